@@ -199,6 +199,8 @@ class FakeKeypairGenerator:
       stubs.USED.add('keypair_generator.Generator(seed).generate_key(bits): '
                      'arbitrary (p, q) > 1, a function of (seed, bits)')
       e = pysym.eng()
+      if isinstance(bits, pysym.SBitLen):
+        bits = bits.value()
       key = ('keypair_gen', self.seed, T(bits).get_id() if pysym.is_sym(bits)
              else bits)
       if key not in e.memo:
